@@ -485,7 +485,8 @@ class PeerManager:
             getaddrinfo = asyncio.get_event_loop().getaddrinfo
             try:
                 infos = await getaddrinfo(host, 80, type=socket.SOCK_STREAM)
-            except socket.gaierror:
+            except (socket.gaierror, UnicodeError):
+                # UnicodeError: the host name cannot be IDNA-encoded (empty or over-long label)
                 permit = False
                 reason = 'address resolution failure'
             else:
